@@ -4,6 +4,7 @@ import (
 	"flag"
 	"fmt"
 	"os"
+	"path/filepath"
 	"sort"
 	"strings"
 	"time"
@@ -83,6 +84,7 @@ func cmdVerify(args []string) {
 	gsel := fs.String("g", "", "print status and path of every instance of the obligations whose name contains this text")
 	fs.Parse(args)
 	t0 := time.Now()
+	loadOpenFindings(filepath.Dir(*stubs))
 	w, err := loadWorld(*repo, *stubs)
 	if err != nil {
 		fmt.Fprintln(os.Stderr, err)
